@@ -47,7 +47,7 @@ Definition out_views32 (P : N) (t : table) : list Z :=
 Definition run_diag (inp : list Z) : list Z :=
   match inp with
   | inst :: rest =>
-      let '(_, P, f32) := diag_inst inst in
+      let '(_, P, f32) := diag_inst (inst mod 100) in
       let '(qsz, _) := read_list rest in
       let qs := map zN qsz in
       if table_ok P qs then
